@@ -6,7 +6,7 @@
 EXTENDS Train, Json, IOUtils, TLCExt
 
 Traces == ndJsonDeserialize(IOEnv.TRACE_FILE)
-TraceCfgs == {Traces[i].cfg : i \in 1..Len(Traces)}
+NoCfgs(s) == {}
 
 VARIABLE tid
 tvars == <<vars, tid>>
@@ -14,7 +14,7 @@ tvars == <<vars, tid>>
 T == Traces[tid]
 
 TInit == /\ tid \in 1..Len(Traces)
-         /\ Init /\ cfg = Traces[tid].cfg
+         /\ InitWith(Traces[tid].cfg)
          /\ TLCSet(tid, 0)
 
 \* the events appended by this step are exactly the next recorded ones
